@@ -384,6 +384,23 @@ fn invalid_pushes(ctx: &mut Ctx) {
                                 1 => guard(|| efb.extend(std::iter::once(bad))).is_panic(),
                                 _ => guard(|| efb.extend(std::iter::once(bad).chain(s[k..].iter().copied()))).is_panic(),
                             };
+                            // a rejected value must not become the reference of later checks: every invalid value
+                            // (also one that would be in order after the rejected one) is still rejected
+                            let mut again = true;
+                            if class != "too-many" {
+                                let last = if k > 0 { s[k - 1] } else { 0 };
+                                let mut seconds: Vec<usize> = vec![];
+                                if last > 0 {
+                                    seconds.extend([0, last - 1, last / 2, bad.min(last - 1)]);
+                                }
+                                if u < usize::MAX {
+                                    seconds.extend([u + 1, usize::MAX]);
+                                }
+                                for b2 in seconds {
+                                    again &= guard(|| efb.push(b2)).is_panic();
+                                }
+                            }
+                            let rejected = rejected && again;
                             // continue with the valid rest on the same builder
                             let cont = guard(|| {
                                 for &x in &s[k..] {
